@@ -68,6 +68,27 @@ pub fn replay_msg(rep: &mut Report, rec: &J) {
 			let d = Duplicate(Entry::new(key.as_str().into(), Value::Null), Entry::new(key.as_str().into(), Value::Boolean(true)));
 			json!({"text": d.to_string()})
 		}
+		Some("serde") => {
+			let e = &rec["e"];
+			let msg = pieces(&e["msg"]);
+			let (text, via_custom) = if rec["side"] == "ser" {
+				use json_syntax::SerializeError as E;
+				let err = match e["variant"].as_str() {
+					Some("custom") => E::Custom(msg.clone()),
+					Some("non_string_key") => E::NonStringKey,
+					_ => E::MalformedHighPrecisionNumber,
+				};
+				(err.to_string(), <E as serde::ser::Error>::custom(&msg).to_string())
+			} else {
+				use json_syntax::DeserializeError as E;
+				let err = match e["variant"].as_str() {
+					Some("custom") => E::Custom(msg.clone()),
+					_ => E::NonStringKey,
+				};
+				(err.to_string(), <E as serde::de::Error>::custom(&msg).to_string())
+			};
+			json!({"text": text, "custom": via_custom, "msg": msg})
+		}
 		_ => tool_error("msg vector: type"),
 	});
 	rep.count("msg_calls");
@@ -84,6 +105,8 @@ pub fn replay_msg(rep: &mut Report, rec: &J) {
 				Some("the source of a stream error is the error of the character source".to_string())
 			} else if rec["type"] == "unexpected" && (o["plain"].as_str() != Some(exp.as_str()) || o["source"].as_str() != Some(exp.as_str()) || o["offset"] != rec["offset"]) {
 				Some("Mapped<Unexpected> displays as / names as its source the kind mismatch it wraps".to_string())
+			} else if rec["type"] == "serde" && o["custom"] != o["msg"] {
+				Some("Error::custom(msg) does not display as msg".to_string())
 			} else {
 				None
 			}
